@@ -47,6 +47,9 @@ func runSpecs(c *explore.Ctx, id string, specs []seqSpec, rule string, assume []
 		if sp.Mode != "" {
 			name += "#" + sp.Mode
 		}
+		for perCfg[name] != nil {
+			name += "+" + sp.Alpha[0]
+		}
 		perCfg[name] = map[string]any{"states": st.States, "transitions": st.Transitions, "depth_completed": st.MaxDepth, "depth_target": sp.Depth, "exhaustive": st.Exhaustive, "alphabet": sp.Alpha}
 		if !st.Exhaustive || st.MaxDepth < sp.Depth {
 			exh = false
@@ -73,6 +76,8 @@ func init() {
 				specs = append(specs, seqSpec{Cfg: cfg, Alpha: c03Alpha, Depth: d, Checks: "db,views"})
 			}
 			specs = append(specs, seqSpec{Cfg: "bigbatch/bytewise", Alpha: c03AlphaTr, Depth: map[bool]int{true: 6, false: 8}[c.Tier == "quick"], Checks: "db,views", Mode: "tr"})
+			ek := []string{"put:", "put:a", "del:", "w:-,+a", "cr", "q", "snap", "rel:0", "iter", "iterS", "reliter", "re"}
+			specs = append(specs, seqSpec{Cfg: "flushy/bytewise", Alpha: ek, Depth: map[bool]int{true: 4, false: 6}[c.Tier == "quick"], Checks: "db,views", Probes: emptyKeyProbes, Mode: "emptykey"})
 			if c.Tier == "quick" {
 				add("flushy/bytewise", 5)
 				add("deep/bytewise", 5)
